@@ -113,8 +113,8 @@ fn gen_bound18(rng: &mut Rng, kind: i32, avoid: bool) -> (Option<(f64, f64)>, &'
 }
 
 fn gen_terms(rng: &mut Rng, pool: &[u64], arbitrary: bool, allow_empty: bool) -> Vec<(u64, f64)> {
-    // normalised: every id at most once, no zero coefficient
-    let mut ids: Vec<u64> = rng.subset(pool, 1, 2);
+    // normalised: every id at most once, no zero coefficient; long rows are dense and stay unsorted
+    let mut ids: Vec<u64> = if pool.len() > 30 { rng.subset(pool, 9, 10) } else { rng.subset(pool, 1, 2) };
     if ids.is_empty() && !allow_empty && !pool.is_empty() {
         ids.push(*rng.pick(pool));
     }
@@ -161,6 +161,7 @@ fn gen_nonlinear(rng: &mut Rng, pool: &[u64], arbitrary: bool) -> v1::Function {
 }
 
 struct Case {
+    size: &'static str,
     inst: v1::Instance,
     shapes: BTreeMap<u64, &'static str>,
     nonlinear_objective: bool,
@@ -193,6 +194,17 @@ fn gen_case(rng: &mut Rng) -> Case {
     if want_nonlinear {
         nv = nv.max(1);
     }
+    // sizes: 1 case in 50 has 33..100 variables (rows of >= 32 unsorted terms), 1 in 800 is a
+    // 300 x 40 dense instance with arbitrary coefficients (an MPS text of ~0.4 MB, > 32 KiB compressed)
+    let size = rng.below(800);
+    let huge = size == 0 && !want_nonlinear;
+    let medium = (1..=16).contains(&size) && !want_nonlinear;
+    let arbitrary = arbitrary || huge;
+    if huge {
+        nv = 300;
+    } else if medium {
+        nv = 33 + rng.usize_below(68);
+    }
     let ids = id_pool(rng, nv, true);
     let mut inst = v1::Instance::default();
     let mut shapes = BTreeMap::new();
@@ -208,7 +220,7 @@ fn gen_case(rng: &mut Rng) -> Case {
     }
     // some variables stay unused
     let pool: Vec<u64> = if nv > 1 && rng.chance(2, 3) {
-        let mut p = rng.subset(&ids, 3, 4);
+        let mut p = if nv > 30 { rng.subset(&ids, 19, 20) } else { rng.subset(&ids, 3, 4) };
         if p.is_empty() {
             p.push(ids[0]);
         }
@@ -240,6 +252,9 @@ fn gen_case(rng: &mut Rng) -> Case {
     let mut nc = rng.usize_below(6);
     if nl_mode >= 2 {
         nc = nc.max(1);
+    }
+    if huge {
+        nc = 40;
     }
     let cids = gen_constraint_id_pool(rng, nc);
     let nl_pick = if nl_mode >= 2 { rng.usize_below(nc) } else { usize::MAX };
@@ -275,6 +290,7 @@ fn gen_case(rng: &mut Rng) -> Case {
         inst.description = Some(d);
     }
     Case {
+        size: if huge { "huge" } else if medium { "medium" } else { "small" },
         inst,
         shapes,
         nonlinear_objective,
@@ -364,7 +380,7 @@ impl Property for C18 {
         }
     }
     fn rule(&self) -> &'static str {
-        "each case: one instance with 0-6 variables (binary/integer/continuous, ids small, sparse or up to 2^62, bound unspecified / finite / lower-only / upper-only / infinite / negative / fractional / degenerate), some of them unused, objective absent / constant / linear, 0-5 constraints (= 0 or <= 0, non-contiguous ids, constant-only ones included), normalised linear functions (each id once, no zero coefficient) with coefficients k/1..k/8 or arbitrary f64 (0.1+0.2, 1e-7, 123456.789e3, random mantissas), either sense; written with mps::write_file and re-read with mps::load_file; about 1 case in 8 has a quadratic or polynomial objective and/or constraint of degree >= 2 and must be refused. Non-trivial = linear instance that uses at least one variable; distinct = fingerprint of the encoded instance."
+        "each case: one instance with 0-6 variables (binary/integer/continuous, ids small, sparse or up to 2^62, bound unspecified / finite / lower-only / upper-only / infinite / negative / fractional / degenerate), some of them unused, objective absent / constant / linear, 0-5 constraints (= 0 or <= 0, non-contiguous ids, constant-only ones included), normalised linear functions (each id once, no zero coefficient) with coefficients k/1..k/8 or arbitrary f64 (0.1+0.2, 1e-7, 123456.789e3, random mantissas), either sense; 1 case in 50 has 33-100 variables with dense rows of >= 32 terms stored unsorted, 1 in 800 is a dense 300 x 40 instance with arbitrary coefficients (MPS text ~0.4 MB, more than 32 KiB compressed); written with mps::write_file and re-read with mps::load_file, and in one linear case in four (every large one) the instance read back is written and read a second time and must still be the problem first written; about 1 case in 8 has a quadratic or polynomial objective and/or constraint of degree >= 2 and must be refused. Non-trivial = linear instance that uses at least one variable; distinct = fingerprint of the encoded instance."
     }
     fn assumptions(&self) -> Vec<&'static str> {
         vec![
@@ -460,37 +476,70 @@ impl Property for C18 {
             mon.sample(json!({"instance": format!("{inst:?}")}));
         }
 
-        match w {
-            Err(p) => {
-                report(mon, format!("C18.panic:{}", panic_site(&p)), format!("write_file panicked: {} at {}\ninstance: {inst:?}", p.message, p.location));
-                let _ = std::fs::remove_file(&path);
-                return;
-            }
-            Ok(Err(e)) => {
-                report(mon, format!("C18.write-error:{}", write_variant(&e)), format!("write_file refused a linear instance: {e}\ninstance: {inst:?}"));
-                let _ = std::fs::remove_file(&path);
-                return;
-            }
-            Ok(Ok(())) => {}
-        }
-        mon.eval();
-        let r = probe(|| ommx::mps::load_file(&path));
-        let back = match r {
-            Err(p) => {
-                report(mon, format!("C18.panic:{}", panic_site(&p)), format!("load_file panicked on the written file: {} at {}\n{}", p.message, p.location, ctx(&path)));
-                let _ = std::fs::remove_file(&path);
-                return;
-            }
-            Ok(Err(e)) => {
-                report(mon, format!("C18.load-error:{}", parse_variant(&e)), format!("the written file is refused by load_file: {e}\n{}", ctx(&path)));
-                let _ = std::fs::remove_file(&path);
-                return;
-            }
-            Ok(Ok(b)) => b,
+        let Some(back) = load_back(mon, w, &path, inst, "") else {
+            let _ = std::fs::remove_file(&path);
+            return;
         };
-        let ctx = ctx(&path);
+        let ctx_s = ctx(&path);
         let _ = std::fs::remove_file(&path);
+        mon.facet(&format!("size:{}", case.size));
+        let long_unsorted = |f: &Option<v1::Function>| match f.as_ref().and_then(|f| f.function.as_ref()) {
+            Some(v1::function::Function::Linear(l)) => l.terms.len() >= 32 && l.terms.windows(2).any(|w| w[0].id > w[1].id),
+            _ => false,
+        };
+        if long_unsorted(&inst.objective) || inst.constraints.iter().any(|c| long_unsorted(&c.function)) {
+            mon.facet("row-with->=32-terms-stored-unsorted");
+        }
+        compare(mon, &case, &used, &back, &ctx_s, "");
+        // one linear case in four (every medium / huge one): what was read is written and read again;
+        // the result must still be the problem first written
+        if case.size != "small" || rng.chance(1, 4) {
+            mon.facet("second-round-trip");
+            mon.eval();
+            let w2 = probe(|| ommx::mps::write_file(&back, &path));
+            let note = "second round trip (the instance read back is written and read again): ";
+            if let Some(back2) = load_back(mon, w2, &path, &back, note) {
+                let ctx2 = format!("{ctx_s}\nsecond file:\n{}", gunzip(&path));
+                compare(mon, &case, &used, &back2, &ctx2, note);
+            }
+            let _ = std::fs::remove_file(&path);
+        }
+    }
+}
 
+/// outcome of write_file, then load_file of the written file; reports refusals and panics
+fn load_back(mon: &mut Monitor, w: Result<Result<(), MpsWriteError>, crate::monitor::PanicInfo>, path: &std::path::Path, written: &v1::Instance, note: &str) -> Option<v1::Instance> {
+    match w {
+        Err(p) => {
+            report(mon, format!("C18.panic:{}", panic_site(&p)), format!("{note}write_file panicked: {} at {}\ninstance: {written:?}", p.message, p.location));
+            return None;
+        }
+        Ok(Err(e)) => {
+            report(mon, format!("C18.write-error:{}", write_variant(&e)), format!("{note}write_file refused a linear instance: {e}\ninstance: {written:?}"));
+            return None;
+        }
+        Ok(Ok(())) => {}
+    }
+    mon.eval();
+    let ctx = |path: &std::path::Path| format!("instance: {written:?}\nfile written:\n{}", gunzip(path));
+    match probe(|| ommx::mps::load_file(path)) {
+        Err(p) => {
+            report(mon, format!("C18.panic:{}", panic_site(&p)), format!("{note}load_file panicked on the written file: {} at {}\n{}", p.message, p.location, ctx(path)));
+            None
+        }
+        Ok(Err(e)) => {
+            report(mon, format!("C18.load-error:{}", parse_variant(&e)), format!("{note}the written file is refused by load_file: {e}\n{}", ctx(path)));
+            None
+        }
+        Ok(Ok(b)) => Some(b),
+    }
+}
+
+/// the instance read back against the instance first written
+fn compare(mon: &mut Monitor, case: &Case, used: &BTreeSet<u64>, back: &v1::Instance, ctx: &str, note: &str) {
+    let inst = &case.inst;
+    let ctx = format!("{note}{ctx}");
+    {
         // sense
         if back.sense != inst.sense {
             report(mon, "C18.sense", format!("sense {} written, {} read back\n{ctx}", inst.sense, back.sense));
